@@ -5,6 +5,7 @@ from pv import judges, lifecycle, plans, programs, wcprog
 
 ID = 'C06'
 TITLE = 'wake-up never lost'
+ANCHORS = ['plumpy.process_states:Waiting.resume', 'plumpy.processes:Process.resume', 'plumpy.process_states:Waiting.interrupt', 'plumpy.process_states:Waiting.execute', 'plumpy.workchains:Waiting._awaitable_done', 'plumpy.workchains:Waiting.enter']
 LEVEL = 'exploration'
 TECHNIQUE = ('runtime monitoring: bounded-progress monitor at event-loop quiescence (after every wake-up was delivered and a final play, the '
              'process must have left the wait), plus continuation-argument and context checks, under enumerated wake-up / pause / play placements')
